@@ -56,6 +56,7 @@ type Pkt struct {
 	Client string `json:"client"`
 	Target string `json:"target,omitempty"` // state family of the question it was derived from (evidence only)
 	Shape  string `json:"shape,omitempty"`  // packet-shape tags (evidence only)
+	Note   string `json:"note,omitempty"`   // what the generator knows about the targeted state (evidence only)
 }
 
 // Group is one differential case: a config, a transport flavour, a history
@@ -151,6 +152,7 @@ type target struct {
 	// flags the packet generator should prefer for this target
 	wantCD, wantECS, noCD bool
 	class                 uint16
+	note                  string // evidence only (Pkt.Note)
 }
 
 const adminClient = "198.51.100.7:5353"
@@ -161,7 +163,7 @@ func q(state, name string, qtype uint16) Op {
 
 // genHistory builds the admission history and the target pool for a group.
 func genHistory(rng *rand.Rand, conf ConfSpec) ([]Op, []target) {
-	return genHistoryMixed(rng, nil, conf)
+	return genHistoryMixed(rng, nil, nil, conf)
 }
 
 // mixedChain draws one alias chain whose hops carry per-invocation attributes
@@ -272,9 +274,128 @@ func mixedChain(rng *rand.Rand, conf ConfSpec) (phase1, phase2 []Op, targets []t
 	return phase1, phase2, targets
 }
 
+// richChain draws one bare-alias chain in front of a rich terminal (universe
+// families cnr -> cnq -> rs) and the ops that admit it for a few question
+// types. The upstream answers the alias only, so the alias entry of every asked
+// type is cached WITHOUT its terminal and the terminal RRset is cached as an
+// entry of its own: the state the wire composer completes from cache.
+func richChain(rng *rand.Rand, conf ConfSpec) (ops []Op, targets []target) {
+	zone := zoneU
+	if rng.IntN(2) == 0 {
+		zone = zoneS
+	}
+	id := fmt.Sprintf("%d", 1+rng.IntN(900))
+	head := "cnq-" + id + "." + zone
+	hops := 1
+	if rng.IntN(4) == 0 {
+		head, hops = "cnr-"+id+"."+zone, 2
+	}
+	ntypes := 2
+	if conf.Prefetch > 0 {
+		ntypes = 1
+	}
+	perm := rng.Perm(len(richTypes))
+	for _, ti := range perm[:ntypes] {
+		t := richTypes[ti]
+		o := q("chain-rich", head, t)
+		o.DO = rng.IntN(3) != 0
+		ops = append(ops, o)
+		note := fmt.Sprintf("qtype=%s hops=%d", dns.TypeToString[t], hops)
+		targets = append(targets, target{name: head, qtype: t, state: "chain-rich", note: note})
+		if rng.IntN(2) == 0 {
+			targets = append(targets, target{name: "rs-" + id + "." + zone, qtype: t, state: "chain-rich-terminal", note: note})
+		}
+	}
+	return ops, targets
+}
+
+// depthBlock draws the denial / failure interplay in ONE signed zone whose
+// apex depth is drawn per group (root, top-level domain, two labels, four
+// labels), with the failing questions 1 to 3 labels below that apex:
+//
+//	1. a question fails (RFC 9520 state; miss witness: the denial state of the
+//	   moment)                                         -> failure-denied-later
+//	2. a validated denial for the zone is admitted whose NSEC range covers the
+//	   name that failed (first snapshot of the zone)
+//	3. two more questions fail under that snapshot: one inside the range of a
+//	   SECOND denial, one outside every range
+//	4. (2 in 3) the second denial is admitted: the zone's snapshot is REPLACED
+//	   -> failure-denied-by-replacement / failure-witness-replaced; otherwise the
+//	   witnesses keep holding -> failure-witness-depth
+//
+// While a denial covers a name with a live cached failure, both entries must
+// answer from the denial (the decoded ladder consults RFC 8198 before RFC
+// 9520); a failure whose witness holds is served from bytes.
+func depthBlock(rng *rand.Rand, conf ConfSpec) (ops []Op, targets []target) {
+	zone := depthZones[rng.IntN(len(depthZones))]
+	depth := dns.CountLabel(zone)
+	id := func() string { return fmt.Sprintf("%d", 1+rng.IntN(900)) }
+	below := func(fam string) (string, int) {
+		n := under(fam+"-"+id(), zone)
+		switch rng.IntN(4) {
+		case 0:
+			return "host." + n, 2
+		case 1:
+			return "a.B." + n, 3
+		}
+		return n, 1
+	}
+	mk := func(state, name string) Op { return q(state, name, dns.TypeA) }
+	add := func(state, name string, below int, extra string) {
+		targets = append(targets, target{name: name, qtype: dns.TypeA, state: state, noCD: true,
+			note: fmt.Sprintf("depth=%d below=%d%s", depth, below, extra)})
+	}
+	f1, b1 := below("nxsf")
+	f2, b2 := below("nysf")
+	f3, b3 := below("fail")
+	nxs, nys := under("nxs-"+id(), zone), under("nys-"+id(), zone)
+	replaced := rng.IntN(3) != 0
+	// a second denial zone on the same ancestor path: the ROOT zone's snapshot
+	// appears before the first failure (every witness then pins two zones) or
+	// after the last one (a zone that covers nothing new moved: the witnesses no
+	// longer hold, the decoded ladder re-evaluates and still serves the failure)
+	outer := ""
+	if zone != zoneRoot && rng.IntN(2) == 0 {
+		outer = []string{"start", "end"}[rng.IntN(2)]
+	}
+	outerOp := mk("depth-denial-outer", under("nxs-"+id(), zoneRoot))
+	extra := ""
+	if outer != "" {
+		extra = " outer=" + outer
+	}
+	if outer == "start" {
+		ops = append(ops, outerOp)
+	}
+	ops = append(ops, mk("failure-denied-later", f1), mk("depth-denial", nxs))
+	add("failure-denied-later", f1, b1, extra)
+	switch {
+	case replaced:
+		ops = append(ops, mk("failure-denied-by-replacement", f2), mk("failure-witness-replaced", f3), mk("depth-denial", nys))
+		add("failure-denied-by-replacement", f2, b2, extra)
+		add("failure-witness-replaced", f3, b3, extra)
+	case outer == "end":
+		ops = append(ops, mk("failure-witness-replaced", f2), mk("failure-witness-replaced", f3))
+		add("failure-witness-replaced", f2, b2, extra)
+		add("failure-witness-replaced", f3, b3, extra)
+	default:
+		ops = append(ops, mk("failure-witness-depth", f2), mk("failure-witness-depth", f3))
+		add("failure-witness-depth", f2, b2, extra)
+		add("failure-witness-depth", f3, b3, extra)
+	}
+	if outer == "end" {
+		ops = append(ops, outerOp)
+	}
+	add("depth-denial", nxs, 1, "")
+	add("depth-cut", "sub."+nxs, 2, "")
+	add("depth-denial-synth", under("nxs-"+id()+"x", zone), 1, "")
+	return ops, targets
+}
+
 // genHistoryMixed is genHistory plus, when mrng is non-nil, mixed alias chains
-// drawn from mrng (a separate stream: the base history stays what it was).
-func genHistoryMixed(rng, mrng *rand.Rand, conf ConfSpec) ([]Op, []target) {
+// drawn from mrng (a separate stream: the base history stays what it was) and,
+// when yrng is non-nil as well, the rich-terminal alias chain and the depth
+// block drawn from yrng (a third stream, for the same reason).
+func genHistoryMixed(rng, mrng, yrng *rand.Rand, conf ConfSpec) ([]Op, []target) {
 	id := func() string { return fmt.Sprintf("%d", 1+rng.IntN(900)) }
 	var early, late []Op // early ops come before the optional clock advance
 	var pool []target
@@ -468,6 +589,22 @@ func genHistoryMixed(rng, mrng *rand.Rand, conf ConfSpec) ([]Op, []target) {
 			first = append(first, p1...)
 			last = append(last, p2...)
 			pool = append(pool, ts...)
+		}
+		if yrng != nil {
+			// rich-terminal alias chain: before everything (aged by the group's
+			// clock advance; prefetch-due where prefetch is on) or after everything
+			rops, rts := richChain(yrng, conf)
+			pool = append(pool, rts...)
+			if yrng.IntN(2) == 0 {
+				first = append(first, rops...)
+			} else {
+				last = append(last, rops...)
+			}
+			// denial / failure interplay by zone depth: last, so the failures are
+			// inside their first backoff interval when the case packets arrive
+			dops, dts := depthBlock(yrng, conf)
+			pool = append(pool, dts...)
+			last = append(last, dops...)
 		}
 		hist = append(append(first, hist...), last...)
 	}
@@ -1101,9 +1238,11 @@ func genSession(rng *rand.Rand, conf ConfSpec, pool []target, si int) Session {
 	return ss
 }
 
-// genGroup draws one complete group. xrng (may be nil) is a second stream for
+// genGroup draws one complete group. yrng (may be nil) is a third stream for the
+// rich-terminal alias chains, the depth block and their dedicated packets (the
+// draws of the other two streams stay what they were). xrng (may be nil) is a second stream for
 // the mixed alias chains, their dedicated packets and the client sessions.
-func genGroup(rng, xrng *rand.Rand, index int, seed uint64, npkts int) *Group {
+func genGroup(rng, xrng, yrng *rand.Rand, index int, seed uint64, npkts int) *Group {
 	g := &Group{Index: index, Seed: seed}
 	g.Conf = confs[index%len(confs)]
 	if (index/len(confs))%2 == 0 {
@@ -1111,12 +1250,12 @@ func genGroup(rng, xrng *rand.Rand, index int, seed uint64, npkts int) *Group {
 	} else {
 		g.Proto = "tcp"
 	}
-	hist, pool := genHistoryMixed(rng, xrng, g.Conf)
+	hist, pool := genHistoryMixed(rng, xrng, yrng, g.Conf)
 	g.History = hist
 	// local-data targets only make sense where the data is configured; keep
 	// them everywhere anyway (they are plain misses elsewhere) but sample
 	// state targets twice as often.
-	var stateful, other, mixed []target
+	var stateful, other, mixed, rich, deep []target
 	for _, t := range pool {
 		switch t.state {
 		case "hosts", "as112", "chaos", "class", "miss", "root", "unknown-type", "meta-type":
@@ -1124,8 +1263,13 @@ func genGroup(rng, xrng *rand.Rand, index int, seed uint64, npkts int) *Group {
 		default:
 			stateful = append(stateful, t)
 		}
-		if t.state == "chain-mixed" {
+		switch t.state {
+		case "chain-mixed":
 			mixed = append(mixed, t)
+		case "chain-rich":
+			rich = append(rich, t)
+		case "failure-denied-later", "failure-denied-by-replacement", "failure-witness-depth", "failure-witness-replaced":
+			deep = append(deep, t)
 		}
 	}
 	for i := 0; i < npkts; i++ {
@@ -1136,7 +1280,7 @@ func genGroup(rng, xrng *rand.Rand, index int, seed uint64, npkts int) *Group {
 			t = other[rng.IntN(len(other))]
 		}
 		pkt, tags := genPacket(rng, t, g.Proto)
-		g.Pkts = append(g.Pkts, Pkt{Hex: hex.EncodeToString(pkt), Client: clientFor(rng, i), Target: t.state, Shape: strings.Join(tags, ",")})
+		g.Pkts = append(g.Pkts, Pkt{Hex: hex.EncodeToString(pkt), Client: clientFor(rng, i), Target: t.state, Shape: strings.Join(tags, ","), Note: t.note})
 	}
 	if xrng == nil {
 		return g
@@ -1153,6 +1297,14 @@ func genGroup(rng, xrng *rand.Rand, index int, seed uint64, npkts int) *Group {
 		t := mixed[xrng.IntN(len(mixed))]
 		pkt, tags := genPacketShaped(xrng, t, g.Proto, true)
 		g.Pkts = append(g.Pkts, Pkt{Hex: hex.EncodeToString(pkt), Client: clientFor(xrng, npkts+i), Target: t.state, Shape: strings.Join(tags, ",")})
+	}
+	// likewise for the rich-terminal alias chains and the depth block
+	for _, set := range [][]target{rich, deep} {
+		for i := 0; yrng != nil && i < nmixed && len(set) > 0; i++ {
+			t := set[yrng.IntN(len(set))]
+			pkt, tags := genPacketShaped(yrng, t, g.Proto, true)
+			g.Pkts = append(g.Pkts, Pkt{Hex: hex.EncodeToString(pkt), Client: clientFor(yrng, len(g.Pkts)), Target: t.state, Shape: strings.Join(tags, ","), Note: t.note})
+		}
 	}
 	if g.Conf.Cookie != "" {
 		ns := 1
